@@ -266,8 +266,10 @@ def check_case(case):
                     return val
             return None
         for k, v in enumerate(variants):
-            got = getp(calls[k], ("mult", "m"))
-            if got is not None and got != v["mult"]:
+            # Sky130 and GF180 parameter classes carry two alias fields (`mult`, `m`); the value may land in either
+            alias = [x for x in (getp(calls[k], ("mult",)), getp(calls[k], ("m",))) if x is not None]
+            got = alias[0] if alias else None
+            if alias and all(x != v["mult"] for x in alias):
                 return (f"{pname}.params.mult", f"{case!r}: instance m{k} asked for mult={v['mult']}, device call has {got}", w)
             if "w" in v and getp(calls[k], ("w",)) != v["w"]:
                 return (f"{pname}.params.size", f"{case!r}: instance m{k} asked for w={v['w']}, device call has {getp(calls[k], ('w',))}", w)
